@@ -85,6 +85,10 @@ bool check_shadow(HState const &h, CaseCtx &c, std::string const &prefix, std::s
 // independent predicate: every loaded multi-index of a local polynomial grid has all parents (and step-parents) loaded.
 // returns 1 true, 0 false, -1 cannot tell (order 0 / not a local polynomial grid)
 int all_parents_loaded(TasmanianSparseGrid const &g);
+// dense-LU classification of a wavelet grid whose coefficients do not reproduce its data: "singular-basis-on-loaded-points", "iterative-solver-not-converged" or ""
+std::string wavelet_failure_class(TasmanianSparseGrid const &g);
+// the same for the transposed system behind getInterpolationWeights(x): M^T w = phi(x)
+std::string wavelet_weights_failure_class(TasmanianSparseGrid const &g, std::vector<double> const &x);
 
 // numeric helpers
 inline double vmaxabs(std::vector<double> const &v){ double m = 0; for(double x : v) m = std::max(m, std::fabs(x)); return m; }
